@@ -8,6 +8,7 @@ import (
 	"io"
 	"math"
 	"reflect"
+	"sort"
 	"time"
 	"unicode/utf8"
 
@@ -328,7 +329,15 @@ func FromGoType(obj interface{}) Object {
 // in the map is of a type that can't be converted, an error is returned.
 func AsObjects(m map[string]any) (map[string]Object, error) {
 	result := make(map[string]Object, len(m))
-	for k, v := range m {
+	// In the order of the names, so that the error for several values that
+	// cannot be converted does not depend on the map's iteration order
+	names := make([]string, 0, len(m))
+	for k := range m {
+		names = append(names, k)
+	}
+	sort.Strings(names)
+	for _, k := range names {
+		v := m[k]
 		switch v := v.(type) {
 		case nil:
 			result[k] = Nil
